@@ -191,16 +191,37 @@ fn c01_sig(case: &Case, sigil: &str, optname: &str, kind: &str, got: Option<&Out
             // in an eagerly evaluated let above those conditions
             return "cse/repeated-raise-under-repeated-condition-lifted".to_string();
         }
-        if d.stepping.map(|s| s >= 23).unwrap_or(false) && case.tags.first().map(|t| t.starts_with("data/bare-")).unwrap_or(false) && text.contains("(1)") {
+        if d.stepping.map(|s| s >= 23).unwrap_or(false) && case.tags.first().map(|t| t.starts_with("cse/if-tree")).unwrap_or(false) && matches!(got, Some(Out::Err(_))) {
+            // F32 family: CSE computes a subexpression repeated in several branches above conditions that do not
+            // dominate all of its uses; when it can raise, the optimised program raises where the source returns a value
+            return "cse/repeated-raising-subexpression-lifted-above-its-guards".to_string();
+        }
+        if d.stepping.map(|s| s >= 23).unwrap_or(false) && case.tags.first().map(|t| t.starts_with("data/bare-")).unwrap_or(false) {
             // F35: null_optimization is entered with spine=true on a body that is itself a quoted constant and
             // rewrites the sub-list (1) of the DATA to (); symptom: the value comes back without any (1)
             // every car-position occurrence of (1) in the payload replaced by ()
+            // the rewrites the post-codegen passes apply to CODE, applied to the elements of the payload:
+            // (1) -> ()   and   (2 (1 . X) 1) -> X
+            fn rw_elem(a: &T) -> T {
+                if let T::P(h, tl) = a {
+                    if **h == T::int(1) && tl.is_nil() {
+                        return T::nil();
+                    }
+                    if **h == T::int(2) {
+                        if let T::P(q, rest) = &**tl {
+                            if let (T::P(q1, x), T::P(one, end)) = (&**q, &**rest) {
+                                if **q1 == T::int(1) && **one == T::int(1) && end.is_nil() {
+                                    return rw_elem(x);
+                                }
+                            }
+                        }
+                    }
+                }
+                rw(a)
+            }
             fn rw(t: &T) -> T {
                 match t {
-                    T::P(a, b) => {
-                        let a2 = if matches!(&**a, T::P(h, tl) if **h == T::int(1) && tl.is_nil()) { T::nil() } else { rw(a) };
-                        T::p(a2, rw(b))
-                    }
+                    T::P(a, b) => T::p(rw_elem(a), rw(b)),
                     _ => t.clone(),
                 }
             }
@@ -556,6 +577,8 @@ fn compare_builds(
                     cs2.prog.sigil = SIGILS.iter().copied().find(|x| *x == s);
                     let optname = if c.0 || c.2 { "optimised" } else { "run" };
                     let base = c01_sig(&cs2, s, optname, "wrong-result", got, code);
+                    // CSE only runs with optimize on: an unoptimised build that raises is not that finding
+                    let base = if base.starts_with("cse/") && !c.0 { format!("wrong-result/{}/{}/{}/x", cs.tags[0], cs.tags.get(1).cloned().unwrap_or_default(), short_sigil(s)) } else { base };
                     if base.starts_with("wrong-result/") {
                         format!("{}/{}", kind, base.trim_start_matches("wrong-result/").rsplitn(2, '/').last().unwrap_or("").to_string() + "/" + &cfg_name(c))
                     } else {
